@@ -189,6 +189,7 @@ def hyp_search(
     shrink=True,
     budget_s=None,
     max_failures=1,
+    shrink_budget_s=None,
 ):
     """Drive prop(case) over `strategy`.
 
@@ -201,6 +202,8 @@ def hyp_search(
     from hypothesis import HealthCheck, Phase, given, settings
 
     t_end = None if budget_s is None else time.time() + budget_s
+    if shrink_budget_s is None:
+        shrink_budget_s = float(os.environ.get("VERIF_SHRINK_S", "60"))
     last = {}
     phases = [Phase.explicit, Phase.generate]
     if shrink:
@@ -222,6 +225,11 @@ def hyp_search(
         if t_end is not None and time.time() > t_end and "case" not in last:
             stats.budget_skipped += 1
             return
+        if "case" in last and time.time() > last["t"] + shrink_budget_s:
+            # shrink budget used up: stop evaluating candidates; the best example so far still fails
+            if case == last["case"]:
+                raise _PropFailure(last["msg"])
+            return
         try:
             msg = prop(case)
         except Discard as d:
@@ -236,6 +244,7 @@ def hyp_search(
                 return
         last["case"] = case
         last["msg"] = msg
+        last.setdefault("t", time.time())
         raise _PropFailure(msg)
 
     try:
